@@ -143,6 +143,13 @@ def c04_prefix(ctx, carrier, step_ft, kw, altitude_ft, extra, which, K):
         ctx.check('prefix_identical_to_unlimited_run', len(pre) <= len(ref) and all(_same_row(a, b) for a, b in zip(pre, ref)),
                   info={'rows': len(rows)})
         ctx.check('last_distance_is_last_row', err.last_distance is rows[-1].distance)
+        last = rows[-1]
+        lv, ly = last.velocity >> U.FPS, last.height >> U.Foot
+        RE = p.RangeError
+        # (the row stores fps via m/s and feet via inches: one rounding each way, hence the 1e-9 slack at the boundary)
+        truthful = {RE.MinimumVelocityReached: lv <= vmin + 1e-9 * (1 + abs(lv)), RE.MaximumDropReached: ly <= drop + 1e-9 * (1 + abs(ly)),
+                    RE.MinimumAltitudeReached: altitude_ft + ly <= altmin + 1e-9 * (1 + abs(ly) + abs(altitude_ft))}.get(err.reason, False)
+        ctx.check('last_row_violates_the_stated_limit', truthful, info={'reason': err.reason})
         body = pre[1:]
     a0 = altitude_ft
     for k, r in enumerate(body):
